@@ -440,7 +440,16 @@ def rule_j(ctx):
 
 WITNESS = ['c01', 'c11']  # doctest filters in /verif/witness (thorough tier)
 
+def rule_k(ctx):
+    """shared clause group: how a due action gets executed (C10.a/d, C07.b/c)"""
+    from . import c07, c10
+    c10.rule_a(ctx)
+    c10.rule_d(ctx)
+    c07.rule_b(ctx)
+    c07.rule_c(ctx)
+
 RULES = [
+    ("C01.k", "every due action is pulled through the helper and executed once (alone or chained in a SeqFuture)", rule_k),
     ("C01.j", "time read + insert under one hold of the queue lock", rule_j),
     ("C01.a", "who may write the time", rule_a),
     ("C01.b", "handles hold readers; SyncCell !Clone !Sync", rule_b),
